@@ -88,6 +88,7 @@ type vqStep struct {
 	Pts  []vqPoint  `json:"pts,omitempty"`
 	St   *vqStmt    `json:"st,omitempty"`
 	Res  []vqSeries `json:"res,omitempty"`
+	Dev3 []vqSeries `json:"dev3,omitempty"` // SLIMIT statements: what "SLIMIT applied per shard" gives with 1 h shards
 	Nsel int        `json:"nsel,omitempty"`
 }
 
@@ -116,6 +117,8 @@ type vqLayout struct {
 	// every query; compacted: snapshot after every write, full compaction before every query;
 	// reopen: like steps, and every store is closed and reopened before every query
 	Mode string `json:"mode"`
+	// shard-group duration in model time units (0: everything in one shard)
+	ShardUnits int `json:"shard_units"`
 }
 
 type vqInput struct {
@@ -124,6 +127,7 @@ type vqInput struct {
 	UnitNs     int64      `json:"unit_ns"`
 	MaxSigs    int        `json:"max_sigs"`
 	OnlyStep   int        `json:"only_step"` // replay: judge only this step (0-based), -1 = all
+	Workers    int        `json:"workers"`   // cluster instances per layout working in parallel
 }
 
 const (
@@ -1015,31 +1019,53 @@ func TestVerifQueryReplay(t *testing.T) {
 		answers []map[int][]vqAnswer
 		texts   []map[int]string
 		err     error
+		secs    float64
+	}
+	if in.Workers <= 0 {
+		in.Workers = 1
 	}
 	runs := make([]layoutRun, len(in.Layouts))
 	var wg sync.WaitGroup
+	var rmu sync.Mutex
 	for li := range in.Layouts {
-		li := li
-		wg.Add(1)
-		go func() {
-			defer wg.Done()
-			r := &runs[li]
-			cl, err := vqNewCluster(in.Layouts[li], scratch)
-			if err != nil {
-				r.err = err
-				return
-			}
-			defer cl.close()
-			for bi := range in.Behaviours {
-				a, tx, err := cl.runBeh(&in.Behaviours[bi], in.UnitNs)
+		runs[li].answers = make([]map[int][]vqAnswer, len(in.Behaviours))
+		runs[li].texts = make([]map[int]string, len(in.Behaviours))
+		for w := 0; w < in.Workers && w < len(in.Behaviours); w++ {
+			li, w := li, w
+			wg.Add(1)
+			go func() {
+				defer wg.Done()
+				r := &runs[li]
+				t0 := time.Now()
+				fail := func(err error) {
+					rmu.Lock()
+					if r.err == nil {
+						r.err = err
+					}
+					rmu.Unlock()
+				}
+				cl, err := vqNewCluster(in.Layouts[li], scratch)
 				if err != nil {
-					r.err = fmt.Errorf("behaviour %d: %v", in.Behaviours[bi].ID, err)
+					fail(err)
 					return
 				}
-				r.answers = append(r.answers, a)
-				r.texts = append(r.texts, tx)
-			}
-		}()
+				defer cl.close()
+				for bi := w; bi < len(in.Behaviours); bi += in.Workers {
+					a, tx, err := cl.runBeh(&in.Behaviours[bi], in.UnitNs)
+					if err != nil {
+						fail(fmt.Errorf("behaviour %d: %v", in.Behaviours[bi].ID, err))
+						return
+					}
+					r.answers[bi] = a
+					r.texts[bi] = tx
+				}
+				rmu.Lock()
+				if d := time.Since(t0).Seconds(); d > r.secs {
+					r.secs = d
+				}
+				rmu.Unlock()
+			}()
+		}
 	}
 	wg.Wait()
 	for li, r := range runs {
@@ -1094,15 +1120,37 @@ func TestVerifQueryReplay(t *testing.T) {
 						continue
 					}
 					d := vqCmpEval(b, in.UnitNs, step, a.res)
-					kind := "layout"
 					if d == "" {
 						// the other layout agrees with Eval and the reference layout does not: already reported above
 						continue
 					}
-					lname := in.Layouts[li].Name
-					report(kind+":"+lname+":"+feat,
+					lay := in.Layouts[li]
+					if (step.St.Slimit > 0 || step.St.Soffset > 0) && lay.ShardUnits > 0 {
+						// Recorded deviation: SLIMIT / SOFFSET are applied by every shard to its own tag sets.
+						// On one node with 1 h shards the model predicts the answer (dev3); on several nodes the
+						// series of a group are hashed over shards and the outcome is not predicted.
+						counters["slimit_per_shard_deviations"]++
+						if lay.Nodes == 1 && lay.ShardUnits == 3 {
+							devStep := *step
+							devStep.Res = step.Dev3
+							if dd := vqCmpEval(b, in.UnitNs, &devStep, a.res); dd == "" {
+								report("dev:slimit-per-shard:"+lay.Name,
+									fmt.Sprintf("%s | layout %s: SLIMIT/SOFFSET applied per shard (answer equals the model of the deviation) | answer %s | reference answer %s",
+										text, lay.Name, a.res.canon(), ref.canon()), b, i, text)
+								continue
+							} else {
+								d += " | against the model of the recorded per-shard SLIMIT deviation: " + dd
+							}
+						} else {
+							report("dev:slimit-per-shard:"+lay.Name+":unpredicted",
+								fmt.Sprintf("%s | layout %s (node %d): SLIMIT/SOFFSET applied per shard | answer %s | reference answer %s",
+									text, lay.Name, a.node, a.res.canon(), ref.canon()), b, i, text)
+							continue
+						}
+					}
+					report("layout:"+lay.Name+":"+feat,
 						fmt.Sprintf("%s | layout %s (node %d) differs from layout %s; against Eval: %s | answer %s | reference answer %s",
-							text, lname, a.node, in.Layouts[0].Name, d, a.res.canon(), ref.canon()), b, i, text)
+							text, lay.Name, a.node, in.Layouts[0].Name, d, a.res.canon(), ref.canon()), b, i, text)
 				}
 			}
 			if samples < 3 && len(ref.Series) > 0 && refDiff == "" {
@@ -1113,6 +1161,11 @@ func TestVerifQueryReplay(t *testing.T) {
 	}
 	counters["distinct_answers"] = len(distinct)
 	done := map[string]interface{}{"signatures": sigs}
+	lsecs := map[string]float64{}
+	for li := range in.Layouts {
+		lsecs[in.Layouts[li].Name] = math.Round(runs[li].secs*10) / 10
+	}
+	done["layout_seconds"] = lsecs
 	for k, v := range counters {
 		done[k] = v
 	}
